@@ -134,6 +134,9 @@ func TestVerif_C17(t *testing.T) {
 			mw.SetDebug(rc.Debug)
 			c17Serve(r, l, mw, &cfg, rc.Debug, expandReq(*rc.Req), false)
 		}
+		if strings.Contains(rc.Note, "call of ResponseWriter.") {
+			c17Reentrancy(r) // the deterministic grid of exchanges reconfigured from inside
+		}
 		r.merge(l)
 		r.Finish(0)
 		return
@@ -357,6 +360,8 @@ func TestVerif_C17(t *testing.T) {
 		})
 	}
 
+	c17Reentrancy(r)
+
 	// ---- cfgerrors.All on deep and wide join trees
 	r.Parallel(pick(r, 4, 16), func(l *Local) {
 		for _, depth := range []int{1, 10, 1000, 10000, 100000 / scale} {
@@ -402,6 +407,102 @@ func TestVerif_C17(t *testing.T) {
 	r.mu.Unlock()
 	r.Finish(pick(r, int64(5000), int64(5000)) / int64(scale))
 }
+
+// c17Reentrancy: see the comment inside.
+func c17Reentrancy(r *Run) {
+	// ---- the middleware reconfigured FROM INSIDE an exchange: the ResponseWriter's methods (called by the middleware and
+	// by the wrapped handler on this very goroutine) call Reconfigure(nil) / Reconfigure(other) / SetDebug on the middleware
+	// at their k-th invocation - what a concurrent administrator does, at the points where the middleware hands control
+	// away (lesson of seeded change C17-n: state read a second time after the snapshot was taken)
+	{
+		cfgA := cors.Config{Origins: []string{"https://example.com", "https://*.example.com:*"}, Methods: []string{"PUT"}, RequestHeaders: []string{"X-Listed-1"}, MaxAgeInSeconds: 30, ResponseHeaders: []string{"X-Exposed"}}
+		cfgB := cors.Config{Origins: []string{"*"}, Methods: []string{"*"}, RequestHeaders: []string{"*"}, ExtraConfig: cors.ExtraConfig{PreflightSuccessStatus: 299}}
+		cfgC := cors.Config{Origins: []string{"https://example.com"}, Credentialed: true, RequestHeaders: []string{"*"}, ExtraConfig: cors.ExtraConfig{PrivateNetworkAccess: true}}
+		starts := []*cors.Config{nil, &cfgA, &cfgB, &cfgC}
+		reqs := []Req{
+			buildReq("GET", nil, nil, nil, nil, nil), buildReq("OPTIONS", nil, nil, nil, nil, nil), actualReq("GET", "https://example.com"),
+			actualReq("POST", "https://never-allowed.invalid"), actualReq("OPTIONS", "https://example.com"),
+			preflightReq("https://example.com", "PUT", []string{"x-listed-1"}, false), preflightReq("https://example.com", "PUT", []string{"x-unlisted"}, true),
+			preflightReq("https://never-allowed.invalid", "GET", nil, false), preflightReq("https://a.example.com:8443", "DELETE", nil, true),
+		}
+		actions := []string{"reconfigure-nil", "reconfigure-A", "reconfigure-B", "reconfigure-C", "setdebug-on", "setdebug-off", "config", "reconfigure-invalid"}
+		r.Parallel(len(starts)*2, func(l *Local) {
+			start := starts[l.Batch/2]
+			debug := l.Batch%2 == 1
+			for _, q := range reqs {
+				for _, act := range actions {
+					for _, method := range []string{"Header", "WriteHeader", "Write"} {
+						for k := 1; k <= 4; k++ {
+							l.evals++
+							l.nontrivN++
+							l.counters["exchanges_reconfigured_from_inside"]++
+							note := fmt.Sprintf("start=%v debug=%v: %s at the %d. call of ResponseWriter.%s", start != nil, debug, act, k, method)
+							r.Guard(func() any { t := trimReq(q); return c17Case{Config: cfgJSON(start), Debug: debug, Req: &t, Note: note} }, func() {
+								mw := new(cors.Middleware)
+								if start != nil {
+									c := *start
+									if err := mw.Reconfigure(&c); err != nil {
+										return
+									}
+								}
+								mw.SetDebug(debug)
+								h := mw.Wrap(&countingHandler{body: "ok", status: 200})
+								w := &hookedWriter{rw: rw{h: http.Header{}}, method: method, at: k}
+								w.do = func() {
+									switch act {
+									case "reconfigure-nil":
+										_ = mw.Reconfigure(nil)
+									case "reconfigure-A":
+										c := cfgA
+										_ = mw.Reconfigure(&c)
+									case "reconfigure-B":
+										c := cfgB
+										_ = mw.Reconfigure(&c)
+									case "reconfigure-C":
+										c := cfgC
+										_ = mw.Reconfigure(&c)
+									case "setdebug-on":
+										mw.SetDebug(true)
+									case "setdebug-off":
+										mw.SetDebug(false)
+									case "config":
+										_ = mw.Config()
+									case "reconfigure-invalid":
+										_ = mw.Reconfigure(&cors.Config{Origins: []string{"https://bad origin"}, MaxAgeInSeconds: -7})
+									}
+								}
+								h.ServeHTTP(w, q.httpReq())
+								// and once more afterwards, plainly
+								h.ServeHTTP(&rw{h: http.Header{}}, q.httpReq())
+							})
+						}
+					}
+				}
+			}
+		})
+	}
+}
+
+// hookedWriter runs do() at the at-th invocation of the named ResponseWriter method, before the method's own work.
+type hookedWriter struct {
+	rw
+	method string
+	at     int
+	n      int
+	do     func()
+}
+
+func (w *hookedWriter) hit(m string) {
+	if m == w.method {
+		w.n++
+		if w.n == w.at && w.do != nil {
+			w.do()
+		}
+	}
+}
+func (w *hookedWriter) Header() http.Header         { w.hit("Header"); return w.rw.Header() }
+func (w *hookedWriter) WriteHeader(s int)           { w.hit("WriteHeader"); w.rw.WriteHeader(s) }
+func (w *hookedWriter) Write(b []byte) (int, error) { w.hit("Write"); return w.rw.Write(b) }
 
 func (q Req) withHeader(k, v string) Req {
 	q.Header[k] = []string{v}
